@@ -469,7 +469,9 @@ class XsdGroup(XsdComponent, MutableSequence[ModelParticleType],
         for e in self.elements:
             if e not in expected and isinstance(e, XsdElement) and e.min_occurs > occurs[e]:
                 expected.append(e)
-                expected.extend(s for s in e.iter_substitutes())
+                # The members of a substitution group are kept in a set: use a stable
+                # order, the expected elements are reported in the error messages
+                expected.extend(sorted(e.iter_substitutes(), key=lambda x: x.name or ''))
 
         return expected
 
